@@ -127,6 +127,7 @@ void Broker::do_connect(const ConnPtr& c, BConn& b, const ref::Packet& p, int cp
     b.got_connect = true; b.client_id = p.client_id; b.connect_cpkt = cpkt;
     rec.client_id = p.client_id;
     for (auto& x : p.props) if (x.id == 0x21) b.client_receive_max = (uint16_t)x.num;
+    for (auto& x : p.props) if (x.id == 0x27) b.client_max_packet = (uint32_t)x.num;
     switch (c->plan.hs) {
         case AttemptPlan::hs_silent: c->stalled = true; return;
         case AttemptPlan::hs_close: b.closed = true; w_.broker_close(c, false); return;
@@ -225,6 +226,19 @@ void Broker::pump_out(const ConnPtr& c) {
         if (m.st != OutMsg::queued) { ++it; continue; }
         if (m.qos > 0 && b->inflight_to_client >= b->client_receive_max) break;
         ref::Packet pub; pub.type = ref::PUBLISH; pub.topic = m.topic; pub.payload = m.payload; pub.props = m.props; pub.qos = m.qos; pub.retain = m.retain;
+        if (b->client_max_packet) {
+            // a conformant Server never sends a packet above the Client's Maximum Packet Size [MQTT-3.1.2-24]: size the
+            // payload (exactly limit - fit_delta when the scenario asks for a boundary message, else merely within the limit)
+            pub.pid = m.qos ? 1 : 0;
+            uint32_t limit = b->client_max_packet, want = m.fit_delta >= 0 && (uint32_t)m.fit_delta < limit ? limit - m.fit_delta : 0;
+            auto size_with = [&](size_t L) { pub.payload.resize(L, 'z'); return ref::encode(pub).size(); };
+            if (size_with(0) > limit) { pub.props.clear(); m.props.clear(); }
+            size_t L = m.payload.size(); uint32_t target = want ? want : limit;
+            if (want || size_with(L) > limit) { L = target; while (L > 0 && size_with(L) > target) --L; }
+            std::string pl = m.payload; pl.resize(L, 'z'); pub.payload = pl;
+            m.payload = pub.payload; m.fit_delta = -1;
+            w_.log(Ev::note, c->id, -1, 0, "broker: PUBLISH sized to " + std::to_string(ref::encode(pub).size()) + " bytes, client's Maximum Packet Size " + std::to_string(limit));
+        }
         if (m.qos > 0) {
             // next packet id not used by an unfinished outbound exchange
             for (;;) {
@@ -243,8 +257,8 @@ void Broker::pump_out(const ConnPtr& c) {
     }
 }
 
-int Broker::publish_to_client(const std::string& tag, std::string topic, std::string payload, uint8_t qos, bool retain, ref::Props props) {
-    OutMsg m; m.id = (int)out.size(); m.tag = tag; m.topic = std::move(topic); m.payload = std::move(payload); m.qos = qos; m.retain = retain; m.props = std::move(props);
+int Broker::publish_to_client(const std::string& tag, std::string topic, std::string payload, uint8_t qos, bool retain, ref::Props props, int fit_delta) {
+    OutMsg m; m.id = (int)out.size(); m.fit_delta = fit_delta; m.tag = tag; m.topic = std::move(topic); m.payload = std::move(payload); m.qos = qos; m.retain = retain; m.props = std::move(props);
     m.seq_enqueued = w_.next_seq(); m.t_enqueued = w_.now();
     // the scenario has one client: attach to its session if known
     if (!sessions.empty()) { auto& s = sessions.begin()->second; m.session = s.client_id; out.push_back(m); s.out.push_back(m.id); }
